@@ -5,6 +5,11 @@ HERE = os.path.dirname(os.path.dirname(os.path.abspath(__file__)))
 
 CLAIMED = {
  # id: (level, technique, text, note, design_ref)
+ "C13": ("fault_enumeration",
+         "deterministic simulation of storage faults: the single-fault catalogue (truncation at every offset, bit flips, overwrites, extensions, insert/delete/duplicate, DER length re-encodings, trailing bytes inside wrappers, torn writes, garbage, text damage) is enumerated over a fixed corpus of encodings and key files; seeded sequences of 2-3 faults on top",
+         "For every item of a fixed corpus (DER INTEGER/BOOLEAN/OCTET/BIT STRING/NULL/OID/SEQUENCE/SET OF with implicit and explicit tags, PEM clear and legacy-encrypted, PKCS#8 clear and under six PBES2/scrypt schemes, three padding styles over block sizes 1-255, RFC 1751, integer conversion, RSA/DSA/ECC keys in every export format) every single storage fault of the catalogue is applied and the result decoded: only the documented exception may escape (keyed by raising site), DER decoders and DER key files must refuse every proper prefix, trailing bytes (also inside explicit/OCTET STRING wrappers), and long-form / zero-padded / indefinite re-encodings of every header they parse, unpad must accept exactly what an independent definition accepts, and decode(encode(v)) == v on the undamaged corpus. Exhaustive over (corpus x single-fault catalogue) in the thorough tier; the quick tier covers all non-key items and a rotating third of each key file's faults, plus 4000 cases of 40 seeded multi-fault sequences.",
+         "Runs that supply a passphrase judge only the exception contract and are cut off by a 2 s watchdog (counted as not judged). DerSequence/DerSetOf do not decode non-INTEGER members, so re-encodings below two levels are not judged for them. The time bound is a per-run wall cap only.",
+         "DESIGN.md section 4 (C13)"),
  "C01": ("exploration",
          "deterministic simulation: sender, faulty channel (corrupt, truncate, extend, re-frame, splice, reorder, replay) and receiver; accept iff re-encryption reproduces the received tag, plus a sent-history rule",
          "Seeded search over channel histories for GCM, CCM, EAX, SIV, OCB, ChaCha20-/XChaCha20-Poly1305 (all legal key sizes, nonce lengths and mac_len values) and KW/KWP: 1-6 sealed records, 2-18 deliveries each damaged by one fault (bit flip in nonce/AAD/ciphertext/tag, tag truncated to any length incl. empty, extended or zeroed, ciphertext truncated/extended/rotated, ciphertext-tag boundary moved, fields of two records exchanged, 16-byte blocks swapped incl. neighbours around every power of two in records up to 70 KB; for KW/KWP also structures crafted with the KEK: wrong ICV constant, wrong length field, non-zero padding) and opened through decrypt_and_verify, segmented decrypt+verify, hexverify, output= and repeated verify. The receiver's verdict must equal the reference decision (decrypt, re-encrypt, compare tags byte for byte; independent RFC 3394/5649 unwrap for KW/KWP) and the sent-history rule. Sampling, not proof.",
